@@ -74,6 +74,6 @@ def expandDatasubset (T : Tables) (fuel : Nat) (t : Template) (s : Subset) : Exc
 /-- `bufr_check_class31_set`: a factor that has been used for an expansion is locked -/
 def class31Locked (n : Node) : Bool :=
   (n.desc = 31000 || n.desc = 31001 || n.desc = 31002) &&
-  hasFlag n.flags FLAG_CLASS31 && n.hasVal && decide (n.ival > 0) && hasFlag n.flags FLAG_EXPANDED
+  n.flags.class31 && n.hasVal && decide (n.ival > 0) && n.flags.expanded
 
 end Bufr
